@@ -165,21 +165,19 @@ template <class T> static inline T gen_param (vp::Src& s)
     }
 }
 // parameter of any element type: integral S (mixed-type calls) draws small integers, floating S as gen_param
-template <class S> static inline S gen_param_any (vp::Src& s)
+// (tag dispatch instead of `if constexpr`: the harness is also compiled as C++11 / C++14)
+template <class S> static inline S gen_param_any_ (vp::Src& s, std::true_type)
 {
-    if constexpr (std::is_integral<S>::value)
+    switch (s.below (4))
     {
-        switch (s.below (4))
-        {
-            case 0: return (S) 0;
-            case 1: return (S) s.range (-4, 4);
-            case 2: return (S) -1;
-            default: return (S) s.range (-100, 100);
-        }
+        case 0: return (S) 0;
+        case 1: return (S) s.range (-4, 4);
+        case 2: return (S) -1;
+        default: return (S) s.range (-100, 100);
     }
-    else
-        return gen_param<S> (s);
 }
+template <class S> static inline S gen_param_any_ (vp::Src& s, std::false_type) { return gen_param<S> (s); }
+template <class S> static inline S gen_param_any (vp::Src& s) { return gen_param_any_<S> (s, std::is_integral<S> ()); }
 // kind: 0 identity, 1 affine (last column 0..0 1), 2 general (random last column)
 template <class M, class T, int N> static inline int gen_matrix (vp::Src& s, M& m)
 {
@@ -383,6 +381,449 @@ template <class T> static inline int gen_partner (vp::Src& s, const Vec3<T>& a, 
     b.y = (T) (bl * (ct * ay + st * py));
     b.z = (T) (bl * (ct * az + st * pz));
     return tc;
+}
+
+// ===================================================================================================================
+// Generators of the *_near_* / *_structured_* / *_exact_* sub-checks (added later; the generators above keep their
+// draw sequences because saved replays of the older sub-checks decode through them).
+//   near:       inputs AT a special case of an algorithm (unit length, zero parameter, identity matrix, parallel /
+//               perpendicular directions, multiples of pi/2) and at perturbations of it of relative size 2^-k,
+//               k = 4 .. digits(T)+3, combined with magnitudes up to 2^20 elsewhere
+//   structured: matrices built from structured bases with a {keep, 0, 1, -1, generic} mask on top
+//   exact:      argument pairs in an exact arithmetic relation (integer / dyadic-rational multiples of a
+//               small-integer vector, exactly perpendicular integer vectors)
+// ===================================================================================================================
+template <class T> struct Dig;
+template <> struct Dig<float>
+{
+    enum { n = 24 };
+};
+template <> struct Dig<double>
+{
+    enum { n = 53 };
+};
+template <> struct Dig<int>
+{
+    enum { n = 24 };
+};
+template <> struct Dig<short>
+{
+    enum { n = 24 };
+};
+// +-2^-k or +-2^-k * (1 + u), k in [4, digits+3]; returned in double (exact there for both element types)
+template <class T> static inline double gen_pert (vp::Src& s, int& k)
+{
+    k          = (int) s.range (4, Dig<T>::n + 3);
+    int    cls = (int) s.below (4); // bit 0: sign, bit 1: random significand
+    double m   = 1.0;
+    if (cls & 2) m += s.unit ();
+    double d = std::ldexp (m, -k);
+    return (cls & 1) ? -d : d;
+}
+// +-2^e * (1 + u), e in [emin, emax]
+static inline double gen_big (vp::Src& s, int emin = 4, int emax = 20)
+{
+    int    e   = (int) s.range (emin, emax);
+    int    cls = (int) s.below (4);
+    double m   = 1.0;
+    if (cls & 2) m += s.unit ();
+    double d = std::ldexp (m, e);
+    return (cls & 1) ? -d : d;
+}
+enum
+{
+    NP_ZERO,
+    NP_TINY,
+    NP_NEAR_ONE,
+    NP_UNIT,
+    NP_BIG,
+    NP_GENERIC
+};
+// parameter near the special values 0 and +-1, or large, or generic; cls receives the NP_ class
+template <class S> static inline S gen_near_param_ (vp::Src& s, int& cls, std::false_type)
+{
+    int k;
+    switch (s.below (10))
+    {
+        case 0: cls = NP_ZERO; return (S) 0;
+        case 1:
+        case 2: cls = NP_TINY; return (S) gen_pert<S> (s, k);
+        case 3:
+        case 4:
+        {
+            cls      = NP_NEAR_ONE;
+            double d = gen_pert<S> (s, k);
+            return (S) (1.0 + d); // exact in double for k <= 52, else 1
+        }
+        case 5:
+        {
+            cls      = NP_NEAR_ONE;
+            double d = gen_pert<S> (s, k);
+            return (S) (-1.0 + d);
+        }
+        case 6: cls = NP_UNIT; return s.coin () ? (S) -1 : (S) 1;
+        case 7:
+        case 8: cls = NP_BIG; return (S) gen_big (s);
+        default: cls = NP_GENERIC; return gen_param<S> (s);
+    }
+}
+template <class S> static inline S gen_near_param_ (vp::Src& s, int& cls, std::true_type)
+{
+    const int emax = sizeof (S) == 2 ? 14 : 20;
+    switch (s.below (6))
+    {
+        case 0: cls = NP_ZERO; return (S) 0;
+        case 1: cls = NP_UNIT; return s.coin () ? (S) -1 : (S) 1;
+        case 2:
+        case 3:
+        {
+            cls   = NP_BIG;
+            int e = (int) s.range (4, emax);
+            S   v = (S) (1 << e);
+            return s.coin () ? (S) -v : v;
+        }
+        default: cls = NP_GENERIC; return (S) s.range (-100, 100);
+    }
+}
+template <class S> static inline S gen_near_param (vp::Src& s, int& cls) { return gen_near_param_<S> (s, cls, std::is_integral<S> ()); }
+// angle near 0 or near a multiple of pi/2 (|j| <= 8), or generic; cls: NP_ZERO, NP_TINY, NP_NEAR_ONE (= near j*pi/2), NP_GENERIC
+template <class S> static inline S gen_near_angle (vp::Src& s, int& cls)
+{
+    int k;
+    switch (s.below (8))
+    {
+        case 0: cls = NP_ZERO; return s.coin () ? -(S) 0 : (S) 0;
+        case 1:
+        case 2: cls = NP_TINY; return (S) gen_pert<S> (s, k);
+        case 3:
+        case 4:
+        case 5:
+        {
+            cls      = NP_NEAR_ONE;
+            int    j = (int) s.range (-8, 8);
+            double d = gen_pert<S> (s, k);
+            return (S) ((double) j * 1.57079632679489661923 + d);
+        }
+        case 6:
+        {
+            // the S value nearest to j*pi/2 and its neighbours
+            cls   = NP_NEAR_ONE;
+            int j = (int) s.range (-8, 8);
+            int u = (int) s.range (-2, 2);
+            S   a = (S) ((double) j * 1.57079632679489661923);
+            for (int i = 0; i < (u < 0 ? -u : u); ++i)
+                a = std::nextafter (a, u < 0 ? (S) -100 : (S) 100);
+            return a;
+        }
+        default: cls = NP_GENERIC; return gen_angle<S> (s);
+    }
+}
+// matrix / point element for the structured generators: exact 0, +-1, small integers, nice, moderate, large
+template <class T> static inline T gen_selem (vp::Src& s)
+{
+    switch (s.below (8))
+    {
+        case 0: return (T) 0;
+        case 1: return s.coin () ? (T) -1 : (T) 1;
+        case 2: return (T) s.range (-4, 4);
+        case 3: return gen::moderate<T> (s, -4, 4);
+        case 4: return (T) gen_big (s);
+        default: return gen::nice<T> (s);
+    }
+}
+enum
+{
+    SB_IDENTITY,
+    SB_IDENTITY_PLUS_EIJ,
+    SB_UNIT_LOWER,
+    SB_UNIT_UPPER,
+    SB_PERMUTATION,
+    SB_DIAGONAL,
+    SB_AFFINE_NOTRANS,
+    SB_NEAR_IDENTITY_BIGTRANS,
+    SB_PROJECTIVE_COLUMN,
+    SB_ONE_OFFDIAGONAL,
+    SB_GENERIC,
+    SB_NBASES
+};
+// Structured matrix (N = 2, 3, 4; N-1 is the translation row / projective column for N > 2).
+// base receives the SB_ class, masked whether the {0, 1, -1, generic} mask changed at least one entry,
+// eij the (i * N + j) index of the perturbed / single entry for the two E_ij bases (else -1).
+// Returns the kind of the FINAL matrix: 0 identity, 1 affine (last column 0..0 1), 2 non-affine.
+template <class M, class T, int N> static inline int gen_structured (vp::Src& s, M& m, int& base, bool& masked, int& eij)
+{
+    const int D = N == 2 ? 2 : N - 1; // size of the linear block
+    for (int i = 0; i < N; ++i)
+        for (int j = 0; j < N; ++j)
+            m[i][j] = (T) (i == j ? 1 : 0);
+    base   = (int) s.below (SB_NBASES);
+    masked = false;
+    eij    = -1;
+    switch (base)
+    {
+        case SB_IDENTITY: break;
+        case SB_IDENTITY_PLUS_EIJ:
+        {
+            // identity + 2^-k * E_ij for any (i, j) including the diagonal, the last row and the last column
+            int    k;
+            int    ij = (int) s.below (N * N);
+            double d  = gen_pert<T> (s, k);
+            eij       = ij;
+            m[ij / N][ij % N] = (T) ((double) m[ij / N][ij % N] + d);
+            break;
+        }
+        case SB_UNIT_LOWER:
+            for (int i = 0; i < N; ++i)
+                for (int j = 0; j < i; ++j)
+                    m[i][j] = gen_selem<T> (s);
+            break;
+        case SB_UNIT_UPPER:
+            for (int i = 0; i < N; ++i)
+                for (int j = i + 1; j < N; ++j)
+                    m[i][j] = gen_selem<T> (s);
+            break;
+        case SB_PERMUTATION:
+        {
+            // signed permutation of all N rows (Fisher-Yates, one draw per step)
+            int p[4] = { 0, 1, 2, 3 };
+            for (int i = N - 1; i > 0; --i)
+            {
+                int j = (int) s.below (i + 1);
+                int t = p[i];
+                p[i]  = p[j];
+                p[j]  = t;
+            }
+            int sg = (int) s.below (16);
+            for (int i = 0; i < N; ++i)
+                for (int j = 0; j < N; ++j)
+                    m[i][j] = (T) (p[i] == j ? ((sg >> i) & 1 ? -1 : 1) : 0);
+            break;
+        }
+        case SB_DIAGONAL:
+            for (int i = 0; i < N; ++i)
+                m[i][i] = gen_selem<T> (s);
+            if (N > 2 && s.coin ()) m[N - 1][N - 1] = (T) 1;
+            break;
+        case SB_AFFINE_NOTRANS:
+            for (int i = 0; i < D; ++i)
+                for (int j = 0; j < D; ++j)
+                    m[i][j] = gen_selem<T> (s);
+            break;
+        case SB_NEAR_IDENTITY_BIGTRANS:
+        {
+            // linear block identity + 2^-k E_ij, translation row of magnitude up to 2^20
+            int    k;
+            int    ij = (int) s.below (D * D);
+            double d  = gen_pert<T> (s, k);
+            eij       = (ij / D) * N + ij % D;
+            m[ij / D][ij % D] = (T) ((double) m[ij / D][ij % D] + d);
+            if (N > 2)
+                for (int j = 0; j < D; ++j)
+                    m[N - 1][j] = (T) gen_big (s, 10, 20);
+            break;
+        }
+        case SB_PROJECTIVE_COLUMN:
+        {
+            // last row (0,..,0,1), a projective last column, linear block identity or generic
+            bool lin = s.coin ();
+            for (int i = 0; i < D; ++i)
+            {
+                if (lin)
+                    for (int j = 0; j < D; ++j)
+                        m[i][j] = gen_selem<T> (s);
+                if (N > 2) m[i][N - 1] = gen_selem<T> (s);
+            }
+            if (N > 2)
+            {
+                bool zero = true;
+                for (int i = 0; i < D; ++i)
+                    if (m[i][N - 1] != 0) zero = false;
+                if (zero) m[(int) s.below (D)][N - 1] = (T) 0.5;
+            }
+            break;
+        }
+        case SB_ONE_OFFDIAGONAL:
+        {
+            // identity with a single off-diagonal entry, every index pair (last row / column included)
+            int ij = (int) s.below (N * (N - 1));
+            int i = ij / (N - 1), j = ij % (N - 1);
+            if (j >= i) ++j;
+            eij     = i * N + j;
+            m[i][j] = gen_selem<T> (s);
+            if (m[i][j] == 0) m[i][j] = (T) 3;
+            break;
+        }
+        default:
+            for (int i = 0; i < N; ++i)
+                for (int j = 0; j < N; ++j)
+                    m[i][j] = gen_selem<T> (s);
+            break;
+    }
+    // mask over {keep, exact 0, exact 1, -1, generic} per entry (half of the cases)
+    if (s.coin ())
+        for (int i = 0; i < N; ++i)
+            for (int j = 0; j < N; ++j)
+            {
+                int b = (int) s.byte ();
+                if (b < 192) continue;
+                T   v;
+                switch (b & 3)
+                {
+                    case 0: v = (T) 0; break;
+                    case 1: v = (T) 1; break;
+                    case 2: v = (T) -1; break;
+                    default: v = gen_selem<T> (s); break;
+                }
+                if (!(v == m[i][j])) masked = true;
+                m[i][j] = v;
+            }
+    bool ident = true, aff = true;
+    for (int i = 0; i < N; ++i)
+        for (int j = 0; j < N; ++j)
+        {
+            if (m[i][j] != (T) (i == j ? 1 : 0)) ident = false;
+            if (j == N - 1 && m[i][j] != (T) (i == j ? 1 : 0)) aff = false;
+        }
+    return ident ? 0 : (aff && N > 2) ? 1 : 2;
+}
+// point with coordinates from {0, +-1, nice, large up to 2^20}
+template <class T> static inline Vec3<T> gen_spoint (vp::Src& s)
+{
+    Vec3<T> a;
+    for (int i = 0; i < 3; ++i)
+        a[i] = gen_selem<T> (s);
+    return a;
+}
+// small-integer direction, |c| <= 16, never zero (pure function of three draws)
+template <class T> static inline Vec3<T> gen_intdir (vp::Src& s, int lim = 16)
+{
+    int x = (int) s.range (-lim, lim);
+    int y = (int) s.range (-lim, lim);
+    int z = (int) s.range (-lim, lim);
+    if (x == 0 && y == 0 && z == 0) z = 1;
+    return Vec3<T> ((T) x, (T) y, (T) z);
+}
+// Ratios of the exactly-parallel pairs: never a power of two.  Integers 3..31 and dyadic rationals p/q, p odd.
+static const short C09_RATIO_NUM[] = { 3, 5, 6, 7, 9, 10, 11, 12, 13, 14, 15, 17, 18, 19, 20, 21, 22, 23, 24, 25, 26, 27, 28, 29, 30, 31, 3, 5, 7, 9, 11, 13, 15, 3, 5, 7, 9, 11, 13, 15, 3, 5, 7, 9, 11, 13, 15, 17, 19, 21, 23, 25, 27, 29, 31 };
+static const short C09_RATIO_DEN[] = { 1, 1, 1, 1, 1, 1, 1, 1, 1, 1, 1, 1, 1, 1, 1, 1, 1, 1, 1, 1, 1, 1, 1, 1, 1, 1, 2, 2, 2, 2, 2, 2, 2, 4, 4, 4, 4, 4, 4, 4, 8, 8, 8, 8, 8, 8, 8, 16, 16, 16, 16, 16, 16, 16, 16 };
+enum
+{
+    C09_NRATIOS = sizeof (C09_RATIO_NUM) / sizeof (C09_RATIO_NUM[0])
+};
+// Exactly parallel / antiparallel pair (a, b) = (m * v, +-(p/q) * v) * 2^e for a small-integer direction v
+// (|c| <= 16), m in {1, 1, 1, 1, 3, 5, 7, 1/2... } so that the ratio b/a is never a power of two.  Every product
+// of two coordinates has at most 3+5+5+5 = 18 significant bits: all products of the cross product a x b are exact and
+// cancel exactly, in float and in double.  A pure function of eight one-byte draws; (vidx, ridx) identify the
+// (direction, ratio) pair.  anti receives whether the pair is antiparallel, rational whether q > 1.
+template <class T> static inline void gen_exact_parallel (vp::Src& s, Vec3<T>& a, Vec3<T>& b, bool& anti, bool& rational)
+{
+    Vec3<T> v  = gen_intdir<T> (s);
+    int     ri = (int) s.below (C09_NRATIOS);
+    int     fl = (int) s.byte (); // bit 0: sign, bit 1: swap, bits 2-4: multiplier of a, bits 5-7 unused
+    int     e  = (int) s.range (-6, 6);
+    static const int mult[8] = { 1, 1, 1, 1, 1, 3, 5, 7 };
+    int     mm = mult[(fl >> 2) & 7];
+    int     p = C09_RATIO_NUM[ri], q = C09_RATIO_DEN[ri];
+    if (p % mm == 0 && ((p / mm) & ((p / mm) - 1)) == 0) mm = 1; // p/(q*mm) would be a power of two
+    anti     = fl & 1;
+    rational = q > 1;
+    T sc = std::ldexp ((T) 1, e);
+    for (int i = 0; i < 3; ++i)
+    {
+        a[i] = (T) ((int) v[i] * mm) * sc;
+        b[i] = (T) ((int) v[i] * p) / (T) q * sc;
+        if (anti) b[i] = -b[i];
+    }
+    if (fl & 2)
+    {
+        Vec3<T> t = a;
+        a         = b;
+        b         = t;
+    }
+}
+// exactly perpendicular integer pair: a = v (|c| <= 16), b = v x w for a small-integer w (|c| <= 8), |b| <= 512,
+// exact in float and double (a.b = 0 in exact arithmetic); w is replaced by a coordinate axis when v x w = 0
+template <class T> static inline void gen_exact_perp (vp::Src& s, Vec3<T>& a, Vec3<T>& b)
+{
+    a         = gen_intdir<T> (s);
+    Vec3<T> w = gen_intdir<T> (s, 8);
+    b         = a.cross (w);
+    if (b.x == 0 && b.y == 0 && b.z == 0) b = a.cross (Vec3<T> (1, 0, 0));
+    if (b.x == 0 && b.y == 0 && b.z == 0) b = a.cross (Vec3<T> (0, 0, 1));
+}
+// b at angle theta0 + delta from a, theta0 in {0, pi/2, pi}, |delta| = 2^-k (k = 4 .. digits+3; towards the inside
+// for 0 and pi), constructed in quad and rounded to T; the length of b is blen.  Returns theta0 class 0 / 1 / 2.
+template <class T> static inline int gen_near_partner (vp::Src& s, const Vec3<T>& a, Vec3<T>& b, int& k)
+{
+    Q3 ah = unit (toq (a));
+    // unit vector e perpendicular to a, rotated about a by phi
+    Q3 w{ 0, 0, 0 };
+    if (qabs (ah.x) <= qabs (ah.y) && qabs (ah.x) <= qabs (ah.z))
+        w.x = 1;
+    else if (qabs (ah.y) <= qabs (ah.z))
+        w.y = 1;
+    else
+        w.z = 1;
+    Q3     e   = unit (cross (ah, w));
+    Q3     f   = cross (ah, e);
+    int    pc  = (int) s.below (4);
+    double phi = 0;
+    if (pc == 0) phi = s.uniform (0.0, 6.283185307179586); // else the perpendicular is e, -e or f exactly
+    Q3 p = pc == 0 ? e * cosq ((quad) phi) + f * sinq ((quad) phi) : pc == 1 ? e : pc == 2 ? e * (quad) -1 : f;
+    int    tc  = (int) s.below (3);
+    double d   = gen_pert<T> (s, k);
+    quad   th  = tc == 0 ? (quad) std::fabs (d) : tc == 1 ? orc::QPI / 2 + (quad) d : orc::QPI - (quad) std::fabs (d);
+    quad   ct = tc == 1 ? -sinq ((quad) d) : cosq (th), st = tc == 1 ? cosq ((quad) d) : sinq (th);
+    // length: exactly 1 + 2^-k', a power of two, or generic
+    int    lc  = (int) s.below (4);
+    double bl  = 1;
+    if (lc == 0)
+    {
+        int kk;
+        bl = 1.0 + gen_pert<T> (s, kk);
+    }
+    else if (lc == 1)
+        bl = std::ldexp (1.0, (int) s.range (-8, 8));
+    else if (lc == 2)
+    {
+        double bm = 1.0 + s.unit ();
+        int    be = (int) s.range (-8, 8);
+        bl        = std::ldexp (bm, be);
+    }
+    Q3 bq = (ah * ct + p * st) * (quad) bl;
+    b.x   = (T) bq.x;
+    b.y   = (T) bq.y;
+    b.z   = (T) bq.z;
+    return tc;
+}
+// direction for the near sub-checks: axis-aligned, small integers, generic; length generic or 1 +- 2^-k
+template <class T> static inline Vec3<T> gen_near_dir (vp::Src& s)
+{
+    Vec3<T> a ((T) 0, (T) 0, (T) 0);
+    switch (s.below (4))
+    {
+        case 0:
+        {
+            int i = (int) s.below (3);
+            a[i]  = s.coin () ? (T) -1 : (T) 1;
+            break;
+        }
+        case 1: a = gen_intdir<T> (s, 8); break;
+        case 2:
+        {
+            // unit vector (rounded) scaled by 1 +- 2^-k
+            for (int i = 0; i < 3; ++i)
+                a[i] = (T) s.uniform (-1.0, 1.0);
+            if (a.x == 0 && a.y == 0 && a.z == 0) a.z = 1;
+            int    k;
+            double d = gen_pert<T> (s, k);
+            Q3     u = unit (toq (a)) * ((quad) 1 + (quad) d);
+            a        = Vec3<T> ((T) u.x, (T) u.y, (T) u.z);
+            break;
+        }
+        default: a = gen_dir<T> (s); break;
+    }
+    return a;
 }
 
 } // namespace c09
